@@ -128,29 +128,29 @@ impl<T: Read + Seek, S: ReadableShape> Iterator for ShapeIterator<'_, T, S> {
     type Item = Result<S, crate::Error>;
 
     fn next(&mut self) -> Option<Self::Item> {
-        if self.current_pos >= self.file_length {
-            None
-        } else {
-            if let Some(ref mut shapes_indices) = self.shapes_indices {
-                // Its 'safer' to seek to the shape offset when we have the `shx` file
-                // as some shapes may not be stored sequentially and may contain 'garbage'
-                // bytes between them
-                let start_pos = shapes_indices.next()?.offset * 2;
-                if start_pos != self.current_pos as i32 {
-                    if let Err(err) = self.source.seek(SeekFrom::Start(start_pos as u64)) {
-                        return Some(Err(err.into()));
-                    }
-                    self.current_pos = start_pos as usize;
+        if let Some(ref mut shapes_indices) = self.shapes_indices {
+            // Its 'safer' to seek to the shape offset when we have the `shx` file
+            // as some shapes may not be stored sequentially and may contain 'garbage'
+            // bytes between them.
+            // The index alone tells how many shapes there are: a record stored
+            // physically before an earlier-indexed one must not end the iteration.
+            let start_pos = shapes_indices.next()?.offset * 2;
+            if start_pos != self.current_pos as i32 {
+                if let Err(err) = self.source.seek(SeekFrom::Start(start_pos as u64)) {
+                    return Some(Err(err.into()));
                 }
+                self.current_pos = start_pos as usize;
             }
-            let (hdr, shape) = match read_one_shape_as::<T, S>(self.source) {
-                Err(e) => return Some(Err(e)),
-                Ok(hdr_and_shape) => hdr_and_shape,
-            };
-            self.current_pos += record::RecordHeader::SIZE;
-            self.current_pos += hdr.record_size as usize * 2;
-            Some(Ok(shape))
+        } else if self.current_pos >= self.file_length {
+            return None;
         }
+        let (hdr, shape) = match read_one_shape_as::<T, S>(self.source) {
+            Err(e) => return Some(Err(e)),
+            Ok(hdr_and_shape) => hdr_and_shape,
+        };
+        self.current_pos += record::RecordHeader::SIZE;
+        self.current_pos += hdr.record_size as usize * 2;
+        Some(Ok(shape))
     }
 
     fn size_hint(&self) -> (usize, Option<usize>) {
